@@ -81,6 +81,7 @@ Definition prim_sig (p : prim) : list ty * ty :=
   | PANew b => ([TMI; ty_of_bty b], TArr b)
   | PALen b => ([TArr b], TMI)
   | PAGet b => ([TArr b; TMI], ty_of_bty b)
+  | PSzLimit _ | PSzTwice _ => ([], TMI)
   end.
 
 (* ---- overload resolution ---- *)
